@@ -649,8 +649,114 @@ def case_rejections(ctx, rng, kind, desc_base):
   ctx.check(raised is not None, 'rejects:structure_change_accepted:' + kind, lambda: dict(case=desc_base, state=repr(G.canon(m))[:300]))
 
 
+def case_raw_array_attr(ctx, i, kind):
+  """Modules that hold a raw jax array as a plain attribute (no Variable) next to their Variables: the function reads the array,
+  updates a Variable with it and re-binds the attribute; the caller's objects end up as after the eager run."""
+  import jax.numpy as jnp
+  from flax import nnx
+
+  class M(nnx.Module):
+    def __init__(self, k):
+      self.w = nnx.Param(jnp.asarray([1.0, 2.0]) * (k + 1))
+      self.buf = jnp.asarray([0.5, -1.0])
+      self.sub = Sub(k)
+
+  class Sub(nnx.Module):
+    def __init__(self, k):
+      self.b = nnx.BatchStat(jnp.zeros(2))
+      self.offset = jnp.full((2,), float(k))
+
+  rebind = (i // 3) % 2 == 1
+
+  def f(m, x):
+    m.w.value = m.w.value + m.buf * x
+    m.sub.b.value = m.sub.b.value + m.sub.offset
+    if rebind:
+      m.buf = m.buf * 2.0
+    return m.w.value.sum() + m.sub.offset.sum()
+
+  desc = dict(transform=kind, rebind_array_attribute=rebind, calls=1 + i % 2)
+  with ctx.case('raw_array_attr', i, desc, nontrivial=True):
+    me, mt = M(i), M(i)
+    x = jnp.asarray(2.0)
+    if kind == 'jit':
+      g = lambda m, x: nnx.jit(f)(m, x)
+    elif kind == 'remat':
+      g = lambda m, x: nnx.remat(f)(m, x)
+    else:
+      cp_holder = {}
+
+      def g(m, x):
+        if 'fn' not in cp_holder:
+          cp_holder['fn'] = nnx.cached_partial(nnx.jit(f), m)
+        return cp_holder['fn'](x)
+    for c in range(desc['calls']):
+      oe = f(me, x)
+      try:
+        ot = g(mt, x)
+      except Exception as e:  # noqa: BLE001
+        ctx.check(False, 'raw_array_attr:%s_raises' % kind, dict(case=desc, call=c, error=repr(e)[:300]))
+        return
+      ctx.op('nnx.%s(module with raw array attribute)' % kind)
+      same = lambda a, b: bool(np.allclose(np.asarray(a), np.asarray(b)))  # noqa: E731
+      ctx.check(same(oe, ot), 'raw_array_attr:output', lambda: dict(case=desc, call=c))
+      ctx.check(same(me.w.value, mt.w.value) and same(me.sub.b.value, mt.sub.b.value), 'raw_array_attr:variable_values', lambda: dict(case=desc, call=c))
+      ctx.check(same(me.buf, mt.buf) and same(me.sub.offset, mt.sub.offset), 'raw_array_attr:attribute_value',
+                lambda: dict(case=desc, call=c, eager=np.asarray(me.buf).tolist(), transformed=np.asarray(mt.buf).tolist()))
+
+
+def case_cached_partial_plain_fn(ctx, i):
+  """cached_partial around a function that is not an NNX transform is rejected - and the rejection leaves nothing behind: the next,
+  unrelated nnx.jit call in the same thread behaves like its eager run."""
+  import jax.numpy as jnp
+  from flax import nnx
+  from flax.nnx import graph
+
+  class M(nnx.Module):
+    def __init__(self, k):
+      self.w = nnx.Param(jnp.asarray([1.0, 2.0]) + k)
+
+  with ctx.case('cached_partial_plain_fn', i, dict(i=i), nontrivial=True):
+    a = M(0)
+    raised = False
+    try:
+      if i % 2 == 0:
+        nnx.cached_partial(lambda m, x: x, a)(1.0)          # no transform consumes the cache
+      else:
+        def boom(m, x):
+          raise KeyError('user error before any transform runs')
+        nnx.cached_partial(boom, a)(1.0)
+    except (ValueError, KeyError):
+      raised = True
+    ctx.op('nnx.cached_partial(plain function)')
+    ctx.check(raised, 'cached_partial_plain_fn:accepted', None)
+    ctx.check(graph.GRAPH_CONTEXT.tmp_static_cache is None, 'context_leak:static_cache_left_installed', dict(i=i))
+    # an unrelated call afterwards
+    def f(m, x):
+      m.w.value = m.w.value * x
+      m.extra = nnx.Param(x + 1.0)
+      return m.w.value.sum()
+    # ... on the very module the rejected cached_partial was given, and on a fresh one
+    be, bt = M(0), a
+    if i >= 4:
+      be, bt = M(3), M(3)
+    oe = f(be, jnp.asarray(2.0))
+    try:
+      ot = nnx.jit(f)(bt, jnp.asarray(2.0))
+      ok = bool(np.allclose(oe, ot)) and bool(np.allclose(be.w.value, bt.w.value)) and hasattr(bt, 'extra')
+      err = None
+    except Exception as e:  # noqa: BLE001
+      ok, err = False, repr(e)[:300]
+    ctx.check(ok, 'context_leak:next_call_affected', dict(i=i, error=err))
+    graph.GRAPH_CONTEXT.tmp_static_cache = None   # do not let a leak reach the other streams of this worker
+
+
 def run(ctx):
   from flax.nnx import graph
+  for i in ctx.indices(6, 'cached_partial_plain_fn'):
+    case_cached_partial_plain_fn(ctx, i)
+  for i, kind in ctx.items(['jit', 'remat', 'cached_partial'] * 4, 'raw_array_attr'):
+    case_raw_array_attr(ctx, i, kind)
   n = 1000 if ctx.tier == 'quick' else 8000
   kinds = ['jit', 'jit', 'jit', 'remat', 'cached_partial', 'cond', 'switch', 'while_loop', 'fori_loop', 'jit']
   for i in ctx.indices(n, 'case'):
@@ -663,7 +769,7 @@ def run(ctx):
       else:
         case_control_flow(ctx, rng, kind, base)
       gc = graph.GRAPH_CONTEXT
-      ctx.check(not gc.update_context_stacks and not gc.ref_index_stack and not gc.index_ref_stack, 'context_leak', None)
+      ctx.check(not gc.update_context_stacks and not gc.ref_index_stack and not gc.index_ref_stack and gc.tmp_static_cache is None, 'context_leak', None)
   for i, kind in ctx.items(['while_loop', 'fori_loop', 'cond'] * 2, 'reject'):
     with ctx.case('reject', i, dict(transform=kind, i=i), nontrivial=True):
       case_rejections(ctx, ctx.rng('reject', i), kind, dict(transform=kind))
